@@ -684,6 +684,15 @@ class State:
             return
         self.wf_done.add(key)
         r = z3.Int('wf!r')
+        if kind == 'ref2':
+            # nested array (list elements / dict values holding object references)
+            i = z3.Int('wf!i')
+            bound = self.arr_bound.get(base.get_id())
+            if bound is None:
+                bound = z3.IntVal(PARAM_REF_BASE)
+            e = z3.Select(z3.Select(base, r), i)
+            self.pc.append(z3.ForAll([r, i], z3.And(e >= 0, e < bound, e != 600000), patterns=[e]))
+            return
         if kind == 'len':
             self.pc.append(z3.ForAll([r], z3.Select(base, r) >= 0, patterns=[z3.Select(base, r)]))
             return
